@@ -19,7 +19,10 @@ var (
 	ErrRaceA = gerror.FactoryOf(&gerror.GError{Name: "ErrRaceA"})
 	ErrRaceB = gerror.FactoryOf(&gerror.GError{Name: "ErrRaceB", Message: "preset message"})
 	ErrRaceC = gerror.FactoryOf(&gerror.GError{Name: "ErrRaceC", Message: "m", Source: "preset:Source"})
-	raceFacs = []gerror.Factory{ErrRaceA, ErrRaceB, ErrRaceC}
+	// bare roots, declared without FactoryOf - the way gsync.ErrWGTimeout and gconfig.ErrFailedParsing are
+	ErrRaceD gerror.Factory = &gerror.GError{Name: "ErrRaceD", Message: "bare root"}
+	ErrRaceE gerror.Factory = &gerror.GError{Name: "ErrRaceE"}
+	raceFacs                = []gerror.Factory{ErrRaceA, ErrRaceB, ErrRaceC, ErrRaceD, ErrRaceE}
 )
 
 type raceStep struct {
@@ -92,9 +95,9 @@ func raceChild(args []string) int {
 	before := facObs()
 	var ref []string
 	var wg sync.WaitGroup
-	wg.Add(1)
-	go func() { defer wg.Done(); ref = runChains(chains, t, g) }()
-	wg.Wait()
+	// the concurrent derivations come FIRST, on factories nothing has derived from yet (a write that
+	// only the first derivation from a factory performs is then made by racing goroutines); the
+	// sequential reference run follows
 	const workers = 16
 	results := make([][]string, workers)
 	start := make(chan struct{})
@@ -107,6 +110,9 @@ func raceChild(args []string) int {
 		}(w)
 	}
 	close(start)
+	wg.Wait()
+	wg.Add(1)
+	go func() { defer wg.Done(); ref = runChains(chains, t, g) }()
 	wg.Wait()
 	verdict := "results-equal"
 	for w := range results {
